@@ -255,6 +255,11 @@ func (m *mangler) makeSignature(cert *certloader.Certificate, opts signers.SignO
 		if err != nil {
 			return nil, fmt.Errorf("failed to timestamp signature: %w", err)
 		}
+		// like every other attach site: do not emit a token that does not cover this SignatureValue (the
+		// time-stamper may be a cache that returns entries as found)
+		if _, err := pkcs9.Verify(tst, encryptedDigest, nil); err != nil {
+			return nil, fmt.Errorf("failed to timestamp signature: failed signature self-check: %w", err)
+		}
 		blob, err := tst.Marshal()
 		if err != nil {
 			return nil, fmt.Errorf("failed to timestamp signature: %w", err)
